@@ -1,6 +1,19 @@
 """Property -> packs, bounded stand-ins, native replay harness, notes (read by pyvc.check)."""
 
 REGISTRY = {
+    "C20": dict(
+        packs=["c20"],
+        level="proof",
+        replay=dict(script="replay/c20.py", args=["{seed}", "25"], timeout=900),
+        bounded=[dict(name="tracker-process-histories", script="replay/c20.py", args=["{seed}", "25"],
+                      bound="25 random request histories (<= 25 lines; balanced, unbalanced, malformed, unknown types, names with ':' and raising clean-ups) "
+                            "fed to the real main() in a child process; unlink_file under 4 fault patterns")],
+        trusted=["the kernel delivers EOF on the pipe exactly when the last client closed or died; lines are delivered whole (PIPE_BUF)",
+                 "str.split(':') / bytes.decode('ascii') abstracted (>= 1 parts; decode may raise)"],
+        assumptions=["_CLEANUP_FUNCS = {folder, file, semlock} on posix", "clean-up functions may raise any Exception, not BaseException",
+                     "client side (TemporaryResourcesManager request sequences) is not under contract; only the tracker's response to arbitrary sequences is"],
+        undecided_clauses=["multi-process timing; Windows handles"],
+    ),
     "C13": dict(
         packs=["c13"],
         level="proof",
@@ -71,6 +84,16 @@ NOT_APPLICABLE = {
 }
 
 MANIFEST_TEXT = {
+    "C20": dict(
+        text="resource_tracker.main verified whole for an arbitrary (unbounded) request history: inductive loop invariant 'every stored count >= 1' "
+             "plus a per-request transition clause proved for every line of arbitrary bytes - REGISTER increments and never deletes; MAYBE_UNLINK on a "
+             "registered name decrements and calls the clean-up exactly when the count returns to zero; on an unregistered name, unknown type, malformed "
+             "line or unknown command nothing is deleted, the registry is unchanged and the loop continues; UNREGISTER forgets without deleting. After EOF "
+             "every name still registered is cleaned exactly once, folders after all other types, and a failing clean-up does not stop the others. "
+             "unlink_file: all 3^10 outcome sequences of the retry loop (complete unrolling of a constant range).",
+        note="Assumed: EOF-on-last-client (kernel), string-library parsing abstracted, clean-up callables external. 'Exactly when the count returns to zero "
+             "over a history' follows by induction from the per-request clause (the induction is the loop invariant rule). Client side not under contract.",
+    ),
     "C13": dict(
         text="Representation invariant of BinaryZlibFile/BinaryGzipFile (buffer, offset, position against the ghost decompressed stream D) proved "
              "to be preserved by _fill_buffer, _read_all, _read_block, read, seek, _rewind, tell with inductive loop invariants over sequences; "
